@@ -492,8 +492,12 @@ impl World {
     pub fn apply(&mut self, op: &Value) {
         self.op_index = self.trace.len();
         self.trace.push(op.clone());
-        if let Some((_, lines)) = CURTRACE.lock().unwrap().as_mut() {
+        if let Some((tp, lines)) = CURTRACE.lock().unwrap().as_mut() {
             lines.push(js(op));
+            // kept on disk while the history runs, so that a crash of the whole process (stack overflow,
+            // allocation failure) still leaves the history that caused it
+            let cur = tp.replace("hang_", "current_");
+            let _ = std::fs::write(&cur, lines.join("\n") + "\n");
         }
         let kind = op["op"].as_str().unwrap().to_string();
         self.stat(&format!("op:{}", kind));
@@ -1508,15 +1512,23 @@ impl World {
                         desc.push(format!("delete {}", k));
                     }
                     4 => {
-                        let body: Vec<u8> = match g.below(3) {
+                        let body: Vec<u8> = match g.below(4) {
                             0 => b"{\"c\":[[\"\\u221a\",\"abc\"]]}".to_vec(),
                             1 => b"not json".to_vec(),
+                            2 => b"[{\"injected\":true}]".to_vec(),
                             _ => items[&k].clone(),
                         };
-                        let name = match g.below(4) {
+                        let dg = digest_bytes(&body);
+                        let name = match g.below(9) {
                             0 => format!("{}-{}.delta", 1 + g.below(3), "ab".repeat(32)),
                             1 => format!("{}.pack", "cd".repeat(32)),
-                            2 => format!("{}-{}.delta", 1, digest_bytes(&body)),
+                            2 => format!("{}-{}.delta", 1, dg),
+                            // names whose digest part is a proper prefix / case variant of the real hash, or empty
+                            3 => format!("{}-{}.delta", 1 + g.below(3), &dg[..1 + g.below(8)]),
+                            4 => format!("{}.pack", &dg[..g.below(9)]),
+                            5 => format!("{}-{}.delta", 1, dg.to_uppercase()),
+                            6 => format!("{}.pack", dg.to_uppercase()),
+                            7 => format!("{}-{}x.delta", 1, dg),
                             _ => format!("junk{}.delta", g.below(10)),
                         };
                         desc.push(format!("inject {}", name));
@@ -2133,6 +2145,7 @@ pub fn main(args: &[String]) {
                     std::fs::create_dir_all(pd).unwrap();
                     std::fs::write(format!("{}/h{}.ptrace", pd, h), w.ptrace.join("\n") + "\n").unwrap();
                 }
+                let _ = std::fs::remove_file(format!("{}/current_{}_{}.trace", out, seed, h));
                 if !w.fails.is_empty() {
                     let tpath = format!("{}/fail_{}_{}.trace", out, seed, h);
                     let mut tf = std::fs::File::create(&tpath).unwrap();
